@@ -256,8 +256,6 @@ def expected_base(mem, prms, tags=None):
             return base_of(filt) + (None,)
         if tags is not None:
             tags.add('exclusion_fallback')
-        if len(filt) >= 1:
-            alt = base_of(filt)   # the YAML comment reads "falls back when *empty*"
     return base_of(mem) + (alt,)
 
 
